@@ -264,7 +264,8 @@ def check(P, R, tier):
 
 LEVEL = ("Decides exact day and week addition for the four calendars with carry loops by decoding the adders with the count kept symbolic "
          "(RF2-add): from start days of one representative year of each of the 21 year classes, for every count within +-400 days / "
-         "+-60 weeks, the result is the representation of the day that many days away.  Counts beyond the window rest on the common "
+         "+-60 weeks, and for far counts of 2 to 40 years from three starts a year, the result is the representation of the day that many "
+         "days away, the helper slot of week dates included.  Counts beyond that rest on the common "
          "structure of the four carry routines, decided separately: in-range shortcut not above the shortest period; forward loop "
          "strict, with the length of the period being left, looked up afresh (RF-fresh) before the move; backward loop moves first, "
          "then adds the length of the period entered, while the value is below 1; month / year wrap constants and month range; a "
